@@ -35,4 +35,42 @@ def gen_callback(tier, rng):
                            ghosts={'cb_calls': calls, 'registered_before': list(funcs), 'one_shot': one_shot, 'removes_other': []})
 
 
-GENS = {'ProxyClient.callback': gen_callback}
+def gen_register(tier, rng):
+    """1..3 callbacks of kinds {updateEvent, updateItem, nodeStateChange, unhandledMessage} registered in ONE call, each either
+    persistent or one-shot (raises UnregisterCallback on its immediate call), for key None / module / (module, parameter), with an
+    empty and with a filled cache"""
+    import itertools
+    from frappy.client import ProxyClient, UnregisterCallback, CacheItem
+    names = ['updateEvent', 'updateItem', 'nodeStateChange', 'unhandledMessage']
+    for n in (1, 2, 3):
+        for combo in itertools.permutations(names, n):
+            for shots in itertools.product([False, True], repeat=n):
+                for key in (None, 'm', ('m', 'p')):
+                    for filled in (False, True):
+                        pc = ProxyClient()
+                        pc.online, pc.state = True, 'connected'
+                        if filled:
+                            pc.cache[('m', 'p')] = CacheItem(1.5, 10.0, None)
+                            pc.cache[('m', 'q')] = CacheItem(2.5, 11.0, None)
+                            pc.cache[('n', 'p')] = CacheItem(3.5, 12.0, None)
+                        calls, given, kw, expect = [], [], {}, {}
+                        ncache = {None: 3, 'm': 2, ('m', 'p'): 1}[key] if filled else 0
+                        for cbname, shot in zip(combo, shots):
+                            def make(cbname=cbname, shot=shot):
+                                def cb(*a):
+                                    calls.append((cb, cbname, a))
+                                    if shot:
+                                        raise UnregisterCallback()
+                                return cb
+                            f = make()
+                            kw[cbname] = f
+                            immediate = ncache if cbname in ('updateEvent', 'updateItem') else (1 if cbname == 'nodeStateChange' else 0)
+                            expect[cbname] = immediate
+                            # a one-shot callback that is never called at registration stays registered
+                            given.append((cbname, f, shot and immediate > 0))
+                        yield dict(label=f'{list(zip(combo, shots))} key={key!r} cache={"filled" if filled else "empty"}', self=pc,
+                                   args={'key': key}, call=lambda pc=pc, key=key, kw=kw: pc.register_callback(key, **kw),
+                                   ghosts={'cb_calls': calls, 'given': given, 'expect_calls': expect})
+
+
+GENS = {'ProxyClient.register_callback': gen_register, 'ProxyClient.callback': gen_callback}
